@@ -893,6 +893,69 @@ fn main() {
 }
 "#;
 
+/// W7: different subprograms with the same DW_AT_name that share source lines: methods generated for two types by
+/// one macro invocation (two `area`, two `scale`), `Counter::new` / `Gauge::new` that both inline one
+/// `#[inline(always)]` helper, and the `{closure#0}` of two functions that both inline that helper.
+pub const WITNESS_SAME_NAME_RS: &str = r#"use std::hint::black_box;
+struct Square(u64);
+struct Rect(u64, u64);
+macro_rules! impl_shape {
+    ($($t:ty => $e:expr),*) => { $(
+        impl $t {
+            #[inline(never)]
+            fn area(&self) -> u64 {
+                let f: fn(&$t) -> u64 = $e;
+                let a = f(self);
+                black_box(a).wrapping_add(1)
+            }
+            #[inline(never)]
+            fn scale(&self, k: u64) -> u64 {
+                let a = self.area();
+                black_box(a).wrapping_mul(k)
+            }
+        }
+    )* };
+}
+impl_shape!(Square => |s: &Square| s.0 * s.0, Rect => |r: &Rect| r.0 * r.1);
+#[inline(always)]
+fn seed_of(x: u64) -> u64 {
+    let y = x.wrapping_mul(31);
+    black_box(y).wrapping_add(7)
+}
+struct Counter(u64);
+struct Gauge(u64);
+impl Counter {
+    #[inline(never)]
+    fn fresh(x: u64) -> Counter { Counter(seed_of(x)) }
+}
+impl Gauge {
+    #[inline(never)]
+    fn fresh(x: u64) -> Gauge { Gauge(seed_of(x).wrapping_add(1)) }
+}
+#[inline(never)]
+fn apply(f: &dyn Fn(u64) -> u64, x: u64) -> u64 { black_box(f(x)) }
+#[inline(never)]
+fn first_user(p: u64) -> u64 {
+    let cl = |z: u64| seed_of(z).wrapping_add(p);
+    apply(&cl, p)
+}
+#[inline(never)]
+fn second_user(p: u64) -> u64 {
+    let cl = |z: u64| seed_of(z).wrapping_mul(p | 1);
+    apply(&cl, p)
+}
+fn main() {
+    let mut total = 0u64;
+    total = total.wrapping_add(Square(3).scale(2));
+    total = total.wrapping_add(Rect(2, 5).scale(3));
+    total = total.wrapping_add(Counter::fresh(black_box(4)).0);
+    total = total.wrapping_add(Gauge::fresh(black_box(5)).0);
+    total = total.wrapping_add(first_user(black_box(6)));
+    total = total.wrapping_add(second_user(black_box(7)));
+    println!("total={}", total);
+}
+"#;
+
 pub const WITNESS_C_MAIN: &str = r#"#include <stdio.h>
 int helper(int x);
 int twice(int x) {
@@ -936,13 +999,32 @@ pub fn run_witness(args: &[String]) -> i32 {
     let seed: u64 = args.first().and_then(|s| s.parse().ok()).unwrap_or(1);
     let out_dir = args.get(2).cloned().unwrap_or_else(|| "../coq/cases".into());
     let scratch = args.get(3).cloned().unwrap_or_else(|| "/verif/.scratch/c04w".into());
+    // second argument: 1 = quick subset (the two Rust witnesses with the default toolchain, clang/gcc ones skipped)
+    let quick = args.get(1).map(|s| s == "1").unwrap_or(false);
     let mut st = Stats { hist: BTreeMap::new(), errors: vec![], rowset_mismatch: vec![], api_mismatch: vec![], api_checks: 0, seen: HashSet::new(), nontrivial: 0, samples: vec![] };
     let mut w = Writer { dir: out_dir.clone(), k: 0, files: vec![], metas: vec![], n_cases: 0 };
     // Rust witness, every toolchain, opt-level 0 and 1
     let names = ["apply", "tail_a", "one_liner_b", "with_closure", "generic_id", "same_line_c"].map(String::from).to_vec();
     for (label, tc, extra) in [("w34/default", None, vec![]), ("w34/stable", Some("stable"), vec![]), ("w34/nightly", Some("nightly"), vec![]), ("w34/opt1", None, vec!["-C", "opt-level=1"])] {
+        if quick && label != "w34/default" {
+            continue;
+        }
         match e2e::compile(&scratch, "w34", WITNESS_RS, &extra, tc) {
             Ok(bin) => match examine(&bin, "w34.rs", WITNESS_RS.lines().count(), Some("w34::"), &names, label, true, 100_000, &mut st) {
+                Ok(pc) => w.add(&pc),
+                Err(e) => st.errors.push(format!("{label}: {e}")),
+            },
+            Err(e) => st.errors.push(format!("{label}: compile: {}", e.lines().next().unwrap_or(""))),
+        }
+    }
+    // same-named subprograms sharing lines
+    let names7 = ["area", "scale", "seed_of", "fresh", "apply", "first_user", "second_user"].map(String::from).to_vec();
+    for (label, tc, extra) in [("w7/default", None, vec![]), ("w7/opt1", None, vec!["-C", "opt-level=1"])] {
+        if quick && label != "w7/default" {
+            continue;
+        }
+        match e2e::compile(&scratch, "w7", WITNESS_SAME_NAME_RS, &extra, tc) {
+            Ok(bin) => match examine(&bin, "w7.rs", WITNESS_SAME_NAME_RS.lines().count(), Some("w7::"), &names7, label, true, 100_000, &mut st) {
                 Ok(pc) => w.add(&pc),
                 Err(e) => st.errors.push(format!("{label}: {e}")),
             },
@@ -956,6 +1038,9 @@ pub fn run_witness(args: &[String]) -> i32 {
     let _ = std::fs::write(dir.join("wc_helper.c"), WITNESS_C_HELPER);
     let cnames = ["twice", "last_of_unit"].map(String::from).to_vec();
     for (label, cc, flags) in [("wc/gcc", "gcc", vec!["-g", "-O0"]), ("wc/gcc-dwarf4", "gcc", vec!["-g", "-O0", "-gdwarf-4"]), ("wc/clang", "clang", vec!["-g", "-O0"])] {
+        if quick {
+            continue;
+        }
         let bin = dir.join("wc");
         let ok = Command::new(cc).current_dir(dir).args(&flags).args(["-o", "wc", "wc_main.c", "wc_helper.c"]).status().map(|s| s.success()).unwrap_or(false);
         if !ok {
@@ -973,6 +1058,9 @@ pub fn run_witness(args: &[String]) -> i32 {
     let w1names = ["zzz_first_in_source", "aaa_second_in_source"].map(String::from).to_vec();
     for (label, cc, flags) in [("w1/gcc-sortsec", "gcc", vec!["-g", "-O0", "-ffunction-sections", "-Wl,--sort-section=name"]),
                                ("w1/clang-sortsec", "clang", vec!["-g", "-O0", "-ffunction-sections", "-Wl,--sort-section=name"])] {
+        if quick {
+            continue;
+        }
         let bin = dir.join("w1");
         let ok = Command::new(cc).current_dir(dir).args(&flags).args(["-o", "w1", "w1.c"]).status().map(|s| s.success()).unwrap_or(false);
         if !ok {
